@@ -191,28 +191,28 @@ func TestWriterPrimitives(t *testing.T) {
 func TestEncodeResponseRejects(t *testing.T) {
 	cols := []ColSpec{{Keyspace: "ks", Table: "t", Name: "a", Type: ColType{ID: TInt}}}
 	for name, r := range map[string]*Response{
-		"nil":                    nil,
-		"version 0":              {Version: 0, Op: OpReady},
-		"version 6":              {Version: 6, Op: OpReady},
-		"stream too big for v2":  {Version: 2, Stream: 128, Op: OpReady},
-		"stream too big for v4":  {Version: 4, Stream: 32768, Op: OpReady},
-		"request opcode":         {Version: 4, Op: OpQuery},
-		"short tracing id":       {Version: 4, Op: OpReady, TracingID: []byte{1}},
-		"warnings in v3":         {Version: 3, Op: OpReady, Warnings: []string{"w"}},
-		"custom payload in v3":   {Version: 3, Op: OpReady, CustomPayload: map[string][]byte{}},
-		"error nil":              {Version: 4, Op: OpError},
-		"bad reason address":     {Version: 5, Op: OpError, Error: &ErrorBody{Code: ErrReadFailure, ReasonMap: []FailureReason{{IP: []byte{1}}}}},
-		"rows nil":               {Version: 4, Op: OpResult, Kind: KindRows},
-		"bad column type":        {Version: 4, Op: OpResult, Kind: KindRows, Rows: &RowsMeta{Columns: []ColSpec{{Name: "a", Type: ColType{ID: TMap}}}}},
-		"prepared nil":           {Version: 4, Op: OpResult, Kind: KindPrepared},
-		"pk indices in v3":       {Version: 3, Op: OpResult, Kind: KindPrepared, Prepared: &PreparedMeta{Columns: cols, PKIndices: []uint16{0}}},
-		"schema nil":             {Version: 4, Op: OpResult, Kind: KindSchemaChange},
-		"function target in v3":  {Version: 3, Op: OpResult, Kind: KindSchemaChange, Schema: &SchemaChange{Change: "CREATED", Target: "FUNCTION"}},
-		"unknown target":         {Version: 4, Op: OpResult, Kind: KindSchemaChange, Schema: &SchemaChange{Change: "CREATED", Target: "VIEW"}},
-		"unknown kind":           {Version: 4, Op: OpResult, Kind: 6},
-		"unknown event":          {Version: 4, Stream: -1, Op: OpEvent, EventType: "X"},
-		"bad event address":      {Version: 4, Stream: -1, Op: OpEvent, EventType: "STATUS_CHANGE", EventChange: "UP", EventIP: []byte{1, 2}},
-		"oversized string":       {Version: 4, Op: OpAuthenticate, AuthClass: string(make([]byte, 70000))},
+		"nil":                   nil,
+		"version 0":             {Version: 0, Op: OpReady},
+		"version 6":             {Version: 6, Op: OpReady},
+		"stream too big for v2": {Version: 2, Stream: 128, Op: OpReady},
+		"stream too big for v4": {Version: 4, Stream: 32768, Op: OpReady},
+		"request opcode":        {Version: 4, Op: OpQuery},
+		"short tracing id":      {Version: 4, Op: OpReady, TracingID: []byte{1}},
+		"warnings in v3":        {Version: 3, Op: OpReady, Warnings: []string{"w"}},
+		"custom payload in v3":  {Version: 3, Op: OpReady, CustomPayload: map[string][]byte{}},
+		"error nil":             {Version: 4, Op: OpError},
+		"bad reason address":    {Version: 5, Op: OpError, Error: &ErrorBody{Code: ErrReadFailure, ReasonMap: []FailureReason{{IP: []byte{1}}}}},
+		"rows nil":              {Version: 4, Op: OpResult, Kind: KindRows},
+		"bad column type":       {Version: 4, Op: OpResult, Kind: KindRows, Rows: &RowsMeta{Columns: []ColSpec{{Name: "a", Type: ColType{ID: TMap}}}}},
+		"prepared nil":          {Version: 4, Op: OpResult, Kind: KindPrepared},
+		"pk indices in v3":      {Version: 3, Op: OpResult, Kind: KindPrepared, Prepared: &PreparedMeta{Columns: cols, PKIndices: []uint16{0}}},
+		"schema nil":            {Version: 4, Op: OpResult, Kind: KindSchemaChange},
+		"function target in v3": {Version: 3, Op: OpResult, Kind: KindSchemaChange, Schema: &SchemaChange{Change: "CREATED", Target: "FUNCTION"}},
+		"unknown target":        {Version: 4, Op: OpResult, Kind: KindSchemaChange, Schema: &SchemaChange{Change: "CREATED", Target: "VIEW"}},
+		"unknown kind":          {Version: 4, Op: OpResult, Kind: 6},
+		"unknown event":         {Version: 4, Stream: -1, Op: OpEvent, EventType: "X"},
+		"bad event address":     {Version: 4, Stream: -1, Op: OpEvent, EventType: "STATUS_CHANGE", EventChange: "UP", EventIP: []byte{1, 2}},
+		"oversized string":      {Version: 4, Op: OpAuthenticate, AuthClass: string(make([]byte, 70000))},
 	} {
 		if b, err := EncodeResponse(r); err == nil {
 			t.Errorf("%s: no error, got % x", name, b)
